@@ -459,6 +459,13 @@ def section_handover(c, model_chk, model):
                     if k > i2 and e.kind == 'call' and (e.name.startswith('indirect:') or e.name == 'cfg_error') and e.args and e.args[0] == ('p', 'cfg') \
                             and not any(u < k for u in ups):
                         late = late or e
+            # the section reports through the error function of the context it is read in (an application's function is
+            # installed on the root after cfg_init() has created the sections: each entry hands it down one level)
+            herr = [e for e in ev[:ri] if e.kind == 'store' and e.field == 'errfunc' and sym.render(e.val) == 'cfg->errfunc' and sym.root_of(e.addr) != ('p', 'cfg')]
+            if not herr:
+                chk.fail('R6.5', 'section-errfunc', c.where(rec[0].ins), 'the section context is not given the error function of its parent before its body is parsed: a diagnostic '
+                         'issued inside a section that existed before the function was installed never reaches it')
+                return
             if not down:
                 chk.fail('R6.5', 'section-line-down', c.where(rec[0].ins), 'the section context does not inherit the current line before its body is parsed')
             elif late is not None:
